@@ -177,6 +177,9 @@ Definition adjust_name (n : bytes) : option bytes :=
   else if is_pseudo_ref n then None
   else Some n.
 
+(* can the reference live in packed-refs at all (possibly_adjust_name_for_prefixes(..).is_some()) *)
+Definition packable (n : bytes) : bool := match adjust_name n with Some _ => true | None => false end.
+
 (* packed::Buffer::try_find through transform_full_name_for_lookup: pseudo refs and refs/worktree/ are never packed *)
 Definition packed_lookup (p : list (bytes * byte)) (n : bytes) : option byte :=
   if starts_with (bs "refs/tags/") n || starts_with (bs "refs/heads/") n || starts_with (bs "refs/remotes/") n
@@ -374,7 +377,10 @@ Fixpoint apply_all (n cid : nat) (fuel : nat) (draws : nat -> N) (st : store) (m
       match nth_error updates cid with
       | None => Panic
       | Some change =>
-          match lock_ref_and_apply_change fuel draws st mode pbuf change has_global_lock direct with
+          (* direct_to_packed_refs: the RemoveLooseSourceReference mode, and only for refs that can be packed;
+             all others (like HEAD) remain loose references which have to be written *)
+          match lock_ref_and_apply_change fuel draws st mode pbuf change has_global_lock
+                  (direct && packable (name_of change)) with
           | Err (ELockAcquire _) =>
               full_name <- walk_name fuel updates (parent_index change) (name_of change) ;;
               Err (ELockAcquire full_name)
@@ -548,7 +554,7 @@ Fixpoint commit_updates (delete_loose_refs : bool) (us : list edit) (l : list (b
       else
         match re_change (upd e) with
         | Update log _ new =>
-            if delete_loose_refs && negb (is_sym new)
+            if delete_loose_refs && negb (is_sym new) && packable (name_of e)
             then '(r', l') <- commit_updates delete_loose_refs r l ;; Ok (e :: r', l')
             else
               let l1 := if logmode_eqb log AndRef && lock e then set_key (name_of e) new l else l in
@@ -567,6 +573,7 @@ Fixpoint commit_deletes (delete_loose_refs : bool) (us : list edit) (l : list (b
       let take_lock_and_delete :=
         match re_change (upd e) with
         | Update log _ new => delete_loose_refs && logmode_eqb log AndRef && negb (is_sym new)
+                              && packable (name_of e)
         | Delete _ log => logmode_eqb log AndRef
         end in
       commit_deletes delete_loose_refs r (if take_lock_and_delete then remove_key (name_of e) l else l)
